@@ -321,28 +321,41 @@ GRID_VOCAB = [
 SLOT_A = "coded_off[2 * OFFCAP * CODE_K + %d]"
 
 
-def indices_unit(conn):
-    """one location code per group (CODE_K), one obligation per (slot, step): with the step fixed the flat-index equality has
-    constant offsets (+-1, 0, +-(dim - 1)) and is a polynomial identity the SMT rewriter normalises"""
-    steps = STEPS[conn]
-    spec_def = " && ".join("SA[%d] == (ADM_R(GR, %d) && ADM_C(GC, %d)) && SR[%d] == (ptrdiff_t) TGT_R(GR, %d) - (ptrdiff_t) GR "
-                           "&& SC[%d] == (ptrdiff_t) TGT_C(GC, %d) - (ptrdiff_t) GC" % (j, dr, dc, j, dr, j, dc)
-                           for j, (dr, dc) in enumerate(steps))
-    # producer instance (raster.coded_offsets.<conn>.code<K>): every listed offset is the spec offset of some admissible step
-    inrange = " && ".join("(%d < coded_n[CODE_K] ==> (%s))" % (i, " || ".join(
-        "(SA[%d] && %s == SR[%d] && %s == SC[%d])" % (j, SLOT_A % (2 * i), j, SLOT_A % (2 * i + 1), j) for j in range(len(steps))))
-        for i in range(NBMAX[conn]))
-    post = " && ".join("((%d < coded_n[CODE_K] && SA[%d] && %s == SR[%d] && %s == SC[%d]) ==> neighbors[%d] == TGT_R(GR, %d) * m_shape1 + TGT_C(GC, %d))" %
-                       (i, j, SLOT_A % (2 * i), j, SLOT_A % (2 * i + 1), j, i, dr, dc)
-                       for i in range(NBMAX[conn]) for j, (dr, dc) in enumerate(steps))
-    post = "SPEC_DEF_I ==> (%s)" % post
-    inrange = "SPEC_DEF_I && " + inrange
+def cls_tgt(k, dr, dc):
+    """(target row, target col, row offset, col offset) of step (dr, dc) at the node (GR, GC) of location code k, specialised to the
+    code's row / column class so that no conditional remains (top row: GR == 0, bottom row: GR == nrows - 1, same for columns)"""
+    rc, cc = k // 3, k % 3
+
+    def one(cls, d, g, n):
+        if d == 0:
+            return g, "0"
+        if d == -1:
+            return ("%s - 1" % n, "(ptrdiff_t) (%s - 1)" % n) if cls == 0 else ("%s - 1" % g, "-1")
+        return ("0", "-(ptrdiff_t) (%s - 1)" % n) if cls == 2 else ("%s + 1" % g, "1")
+    tr, orow = one(rc, dr, "GR", "m_shape0")
+    tc, ocol = one(cc, dc, "GC", "m_shape1")
+    return tr, tc, orow, ocol
+
+
+# Measured (see the final report): with the offsets read from the stored list (array reads, equalities under a guard) the
+# flat-index equality neighbors[i] == target_row * ncols + target_col times out on cvc5, z3 and SAT (> 240 s per location code,
+# with and without DFCC instrumentation), while the same equality over scalars is decided by cvc5 / z3 in < 0.1 s.  The index
+# clause is therefore split into
+#   raster.indices.nb<N>      (SAT, the extracted function): slot i == (size_t) off_r[i] * ncols + (size_t) off_c[i] + idx for every
+#                             stored offset, exactly offsets.size() slots, no out-of-range .at()  -- SUPPORTING: shaped like the code
+#   raster.index_lemma.*      (cvc5, scalars): that expression at idx = r * ncols + c equals the row-major index of the step's target,
+#                             one obligation per (location code, step), wrap and non-wrap
+# and the substitution of equals that joins them is listed as unmechanised.
+def indices_unit():
+    A = "coded_off[2 * OFFCAP * GKC + %d]"
+    post = " && ".join("(%d < coded_n[GKC] ==> neighbors[%d] == (size_t) %s * m_shape1 + (size_t) %s + idx)" % (i, i, A % (2 * i), A % (2 * i + 1))
+                       for i in range(OFFCAP))
     return Unit(
         name="raster_neighbors_indices_impl", file=RG_H,
         anchor=r"inline auto raster_grid<S, RC, C>::neighbors_indices_impl\(\s*neighbors_indices_impl_type& neighbors, const size_type& idx\) const -> void",
         sig="void raster_neighbors_indices_impl(size_t *neighbors, size_t idx, size_t m_shape0, size_t m_shape1, size_t m_size, "
-            "const uint8_t *m_nodes_codes, const ptrdiff_t *coded_off, const size_t *coded_n, const struct rbs *bs)",
-        pre=GEO + ACC + "#define SPEC_DEF_I (%s)\n" % spec_def,
+            "const uint8_t *m_nodes_codes, const ptrdiff_t *coded_off, const size_t *coded_n)",
+        pre=ACC + "size_t GKC; /* ghost: the location code stored for idx */\n",
         rules=GRID_VOCAB + [
             V(r"const auto& offsets =", "const struct offvec offsets ="),
             V(r"\boffsets\.size\(\)", "offsets.size"),
@@ -352,41 +365,54 @@ def indices_unit(conn):
             V(r"neighbors\.at\(([^()]+)\)", r"neighbors[FSL_IDX1(\1, NB_MAX)]"),
         ],
         contract=r"""
-__CPROVER_requires(2 <= m_shape0 && m_shape0 <= DIM_MAX && 2 <= m_shape1 && m_shape1 <= DIM_MAX && m_size <= ((size_t) 1 << 40))
+__CPROVER_requires(m_shape1 <= DIM_MAX && m_size <= ((size_t) 1 << 40) && idx < m_size)
 __CPROVER_requires(__CPROVER_is_fresh(neighbors, NB_MAX * 8) && __CPROVER_is_fresh(m_nodes_codes, m_size))
 __CPROVER_requires(__CPROVER_is_fresh(coded_off, 9 * OFFCAP * 16) && __CPROVER_is_fresh(coded_n, 9 * 8))
-__CPROVER_requires(__CPROVER_is_fresh(bs, sizeof(*bs)) && BS_SYM(bs))   /* ghost parameter: the borders, for the geometric spec only */
-/* the queried node is the ghost node (GR, GC) */
-__CPROVER_requires(GR < m_shape0 && GC < m_shape1 && idx == GR * m_shape1 + GC && idx < m_size)
-/* instances of the producers' postconditions: code table (raster.codes), offset lists (raster.coded_offsets.*: every listed
- * offset is target - node for an in-range target; at most n_neighbors_max of them) */
-__CPROVER_requires(CODE(GR, GC) == CODE_K)   /* case split over the 9 location codes: one group per code */
-__CPROVER_requires(m_nodes_codes[idx] == CODE(GR, GC))
-__CPROVER_requires(coded_n[CODE_K] <= NB_MAX && NB_MAX <= OFFCAP)
-__CPROVER_requires(%s)
+/* instances of the producers' postconditions: the stored code is one of the 9 location codes (raster.codes), its offset list has at
+ * most n_neighbors_max entries (raster.coded_offsets.*) */
+__CPROVER_requires(m_nodes_codes[idx] == GKC && GKC < 9 && coded_n[GKC] <= NB_MAX && NB_MAX <= OFFCAP)
 __CPROVER_assigns(__CPROVER_object_whole(neighbors))
-/* C07: a slot holding the offset of step (dr, dc) yields the row-major flat index of ((GR + dr) mod nrows, (GC + dc) mod ncols) */
 __CPROVER_ensures(%s)
-""" % (inrange, post))
+""" % post)
 
 
-def indices_group(conn, k):
-    u = indices_unit(conn)
-    nbmax = NBMAX[conn]
-    return Group(name="raster.indices.%s.code%d" % (conn, k), units=[base, u], defines=["NB_MAX=%d" % nbmax, "CODE_K=%d" % k],
+def indices_group(nbmax):
+    u = indices_unit()
+    return Group(name="raster.indices.nb%d" % nbmax, units=[base, u], defines=["NB_MAX=%d" % nbmax],
                  harness=ND + r"""
-ptrdiff_t nondet_ptrdiff_t(void);
 void h_idx(void)
 {
-    size_t *nb; const uint8_t *codes; const ptrdiff_t *off; const size_t *cn; const struct rbs *bs;
-    GR = nondet_size_t(); GC = nondet_size_t();
-    for (int j = 0; j < 8; ++j) { SA[j] = nondet_bool(); SR[j] = nondet_ptrdiff_t(); SC[j] = nondet_ptrdiff_t(); }
-    raster_neighbors_indices_impl(nb, nondet_size_t(), nondet_size_t(), nondet_size_t(), nondet_size_t(), codes, off, cn, bs);
+    size_t *nb; const uint8_t *codes; const ptrdiff_t *off; const size_t *cn;
+    GKC = nondet_size_t();
+    raster_neighbors_indices_impl(nb, nondet_size_t(), nondet_size_t(), nondet_size_t(), nondet_size_t(), codes, off, cn);
     __CPROVER_assert(0, "canary: postcondition point reachable");
 }
-""", entry="h_idx", enforce=u.name, unwindset={(u.name, 0): OFFCAP + 1}, backend="cvc5", timeout=240, min_obligations=10,
-                 clause="neighbors_indices_impl (%s, location code %d): a slot holding the offset of an admissible step yields the row-major flat "
-                        "index of the step's target ((r + dr) mod nrows, (c + dc) mod ncols); no out-of-range .at(); symbolic shape in [2, 2^20]^2" % (conn, k))
+""", entry="h_idx", enforce=u.name, unwindset={(u.name, 0): OFFCAP + 1}, backend="sat", timeout=300, min_obligations=10, deciding=False,
+                 clause="SUPPORTING (shaped like the code): neighbors_indices_impl (n_neighbors_max = %d) writes, for every offset stored for the "
+                        "node's code, (size_t) off_r * ncols + (size_t) off_c + idx; exactly offsets.size() slots; no out-of-range .at()" % nbmax)
+
+
+def index_lemma_group(conn):
+    asserts = []
+    for k in range(9):
+        for dr, dc in STEPS[conn]:
+            tr, tc, orow, ocol = cls_tgt(k, dr, dc)
+            asserts.append('    __CPROVER_assert(CODE(GR, GC) != %d || (size_t) (%s) * m_shape1 + (size_t) (%s) + idx == (%s) * m_shape1 + (%s), '
+                           '"code %d step (%d,%d): flat index of the step target");' % (k, orow, ocol, tr, tc, k, dr, dc))
+    h = ND + GEO + r"""
+void h_il(void)
+{
+    size_t m_shape0 = nondet_size_t(), m_shape1 = nondet_size_t();
+    GR = nondet_size_t(); GC = nondet_size_t();
+    __CPROVER_assume(2 <= m_shape0 && m_shape0 <= DIM_MAX && 2 <= m_shape1 && m_shape1 <= DIM_MAX && GR < m_shape0 && GC < m_shape1);
+    size_t idx = GR * m_shape1 + GC;   /* ravel_idx(GR, GC), see raster.ravel */
+%s
+    __CPROVER_assert(0, "canary: postcondition point reachable");
+}
+""" % "\n".join(asserts)
+    return Group(name="raster.index_lemma." + conn, units=[base], harness=h, entry="h_il", backend="cvc5", timeout=300, min_obligations=9,
+                 clause="%s: for each location code and step, (size_t) offset_r * ncols + (size_t) offset_c + (r * ncols + c) == target_r * ncols "
+                        "+ target_c with the code's wrap / non-wrap offsets (polynomial identities mod 2^64, symbolic shape in [2, 2^20]^2)" % conn)
 
 
 def count_impl_group(conn):
@@ -470,6 +496,116 @@ void h_unravel(void)
 """, entry="h_unravel", enforce="unravel_idx", backend="cvc5", timeout=300, min_obligations=1,
                clause="unravel_idx: ravel(unravel(idx)) == idx (row = idx / ncols, col = idx - row * ncols)")
     return [g1, g2]
+
+
+
+# =========================================================================== 5b. the specialised targets agree with the geometric spec
+def spec_by_code_group(conn):
+    asserts = []
+    for k in range(9):
+        for dr, dc in STEPS[conn]:
+            tr, tc, orow, ocol = cls_tgt(k, dr, dc)
+            asserts.append('    __CPROVER_assert(CODE(GR, GC) != %d || (TGT_R(GR, %d) == (%s) && TGT_C(GC, %d) == (%s) '
+                           '&& (ptrdiff_t) TGT_R(GR, %d) - (ptrdiff_t) GR == (%s) && (ptrdiff_t) TGT_C(GC, %d) - (ptrdiff_t) GC == (%s)), '
+                           '"code %d step (%d,%d): specialised target/offset == geometric target/offset");' %
+                           (k, dr, tr, dc, tc, dr, orow, dc, ocol, k, dr, dc))
+    h = ND + GEO + r"""
+void h_sbc(void)
+{
+    size_t m_shape0 = nondet_size_t(), m_shape1 = nondet_size_t();
+    GR = nondet_size_t(); GC = nondet_size_t();
+    __CPROVER_assume(2 <= m_shape0 && m_shape0 <= DIM_MAX && 2 <= m_shape1 && m_shape1 <= DIM_MAX && GR < m_shape0 && GC < m_shape1);
+%s
+    __CPROVER_assert(0, "canary: postcondition point reachable");
+}
+""" % "\n".join(asserts)
+    return Group(name="raster.spec_by_code." + conn, units=[base], harness=h, entry="h_sbc", timeout=120, min_obligations=9,
+                 clause="%s: for each location code and step, the conditional-free target / offset used by raster.indices.* equals the geometric "
+                        "((r + dr) mod nrows, (c + dc) mod ncols) (spec-level lemma)" % conn)
+
+
+# =========================================================================== 5c. build_nodes_codes
+CODES_MODEL = r"""
+size_t GN0, GSIZE;   /* ghost copies of nrows and of the node count, for the arithmetic lemmas below */
+/* std::vector<uint8_t> v(n, value) and vector copy assignment: ghost-cell models (the two ghost positions GR and GC) */
+void fsl_vec_fill(uint8_t *a, size_t n, uint8_t v)
+__CPROVER_requires(n <= DIM_MAX)
+__CPROVER_assigns(__CPROVER_object_whole(a))
+__CPROVER_ensures((GR < n ==> a[GR] == v) && (GC < n ==> a[GC] == v))
+;
+void fsl_vec_copy(uint8_t *dst, const uint8_t *src, size_t n)
+__CPROVER_requires(n <= DIM_MAX)
+__CPROVER_assigns(__CPROVER_object_whole(dst))
+__CPROVER_ensures((GR < n ==> dst[GR] == src[GR]) && (GC < n ==> dst[GC] == src[GC]))
+;
+"""
+ravel_assumed = Unit(
+    name="ravel_idx", file=RG_H, anchor=ravel.anchor, sig=ravel.sig, rules=ravel.rules, pre=GEO + ACC + CODES_MODEL,
+    contract=r"""
+__CPROVER_requires(row < GN0 && col < m_shape1)
+__CPROVER_assigns()
+/* ASSUMED arithmetic lemmas about row * ncols + col (the equation itself is proved in raster.ravel; every back end times out on these):
+ * RAVEL_INJECTIVE  for col, GC < ncols:  row * ncols + col == GR * ncols + GC  <=>  (row, col) == (GR, GC)
+ * RAVEL_IN_RANGE   row < nrows, col < ncols  ==>  row * ncols + col < nrows * ncols */
+__CPROVER_ensures((__CPROVER_return_value == GIDX) == (row == GR && col == GC))
+__CPROVER_ensures(__CPROVER_return_value < GSIZE)
+""")
+codes = Unit(
+    name="build_nodes_codes", file=RG_H, anchor=r"void raster_grid<S, RC, C>::build_nodes_codes\(\)",
+    sig="void build_nodes_codes(uint8_t *m_nodes_codes, size_t m_size, size_t m_shape0, size_t m_shape1, "
+        "uint8_t *gcode_rc0, uint8_t *gcode_rc1, uint8_t *gcode_component, size_t gc_cap)",
+    body_prefix="const size_t m_shape[2] = { m_shape0, m_shape1 }; /* shape_type m_shape */\n",
+    rules=[
+        R(r"std::array<std::vector<code_type>, 2> gcode_rc;", "uint8_t *gcode_rc[2] = { gcode_rc0, gcode_rc1 }; /* storage provided by the caller */", 1),
+        V(r"\bauto (\w+) = static_cast<std::uint8_t>", r"const uint8_t \1 = static_cast<std::uint8_t>"),
+        R(r"std::vector<std::uint8_t> gcode_component\(([^;]*)\);", r"fsl_vec_fill(gcode_component, \1);", 1),
+        R(r"gcode_rc\[dim\] = gcode_component;", "fsl_vec_copy(gcode_rc[dim], gcode_component, m_shape[dim]);", 1),
+        V(r"gcode_component\[([^\[\]]+(?:\[[^\[\]]+\])?[^\[\]]*)\] =", r"gcode_component[FSL_IDX1(\1, m_shape[dim])] ="),
+        V(r"m_nodes_codes\.resize\(\{ m_size \}\);", "/* resize({ m_size }): storage of m_size cells provided by the caller */"),
+        V(r"\bravel_idx\(", "ravel_idx(m_shape1, "),
+        V(r"m_nodes_codes\[(ravel_idx\([^()]*\))\]", r"m_nodes_codes[FSL_IDX1(\1, m_size)]"),
+        V(r"gcode_rc\[0\]\[([^\[\]]+)\]", r"gcode_rc[0][FSL_IDX1(\1, m_shape[0])]"),
+        V(r"gcode_rc\[1\]\[([^\[\]]+)\]", r"gcode_rc[1][FSL_IDX1(\1, m_shape[1])]"),
+    ],
+    contract=r"""
+__CPROVER_requires(2 <= m_shape0 && m_shape0 <= DIM_MAX && 2 <= m_shape1 && m_shape1 <= DIM_MAX && m_size <= ((size_t) 1 << 40))
+__CPROVER_requires(__CPROVER_is_fresh(m_nodes_codes, m_size) && __CPROVER_is_fresh(gcode_rc0, m_shape0) && __CPROVER_is_fresh(gcode_rc1, m_shape1))
+__CPROVER_requires(m_shape0 <= gc_cap && m_shape1 <= gc_cap && gc_cap <= DIM_MAX && __CPROVER_is_fresh(gcode_component, gc_cap))   /* scratch vector storage */
+__CPROVER_requires(GR < m_shape0 && GC < m_shape1 && GIDX < m_size && GN0 == m_shape0 && GSIZE == m_size)
+__CPROVER_assigns(__CPROVER_object_whole(m_nodes_codes), __CPROVER_object_whole(gcode_rc0), __CPROVER_object_whole(gcode_rc1), __CPROVER_object_whole(gcode_component))
+/* C07: the cell of the arbitrary node (GR, GC) -- GIDX is its flat index, see the ravel lemmas -- holds its location code */
+__CPROVER_ensures(m_nodes_codes[GIDX] == CODE(GR, GC))
+""",
+    loops={1: r"""
+__CPROVER_assigns(r, __CPROVER_object_whole(m_nodes_codes))
+__CPROVER_loop_invariant(r <= m_shape[0])
+__CPROVER_loop_invariant(GR < r ==> m_nodes_codes[GIDX] == CODE(GR, GC))
+__CPROVER_decreases(m_shape[0] - r)
+""", 2: r"""
+__CPROVER_assigns(c, __CPROVER_object_whole(m_nodes_codes))
+__CPROVER_loop_invariant(c <= m_shape[1])
+__CPROVER_loop_invariant((GR < r || (GR == r && GC < c)) ==> m_nodes_codes[GIDX] == CODE(GR, GC))
+__CPROVER_decreases(m_shape[1] - c)
+"""})
+
+
+def codes_group():
+    return Group(name="raster.codes", units=[base, ravel_assumed, codes],
+                 harness=ND + r"""
+void h_codes(void)
+{
+    uint8_t *nc, *g0, *g1, *gc;
+    GR = nondet_size_t(); GC = nondet_size_t(); GIDX = nondet_size_t(); GN0 = nondet_size_t(); GSIZE = nondet_size_t();
+    build_nodes_codes(nc, nondet_size_t(), nondet_size_t(), nondet_size_t(), g0, g1, gc, nondet_size_t());
+    __CPROVER_assert(0, "canary: postcondition point reachable");
+}
+""", entry="h_codes", enforce="build_nodes_codes", replace=["ravel_idx", "fsl_vec_fill", "fsl_vec_copy"], loop_contracts=True,
+                 unwindset={("build_nodes_codes", 0): 3}, timeout=600, min_obligations=20,
+                 # narrowing int -> uint8_t is well-defined (mod 256); the ghost-cell vector model bounds only the ghost entries, so the
+                 # optional conversion check cannot be discharged at the other cells (their values are exact: 0/3/6 + 0/1/2)
+                 no_checks=["--conversion-check"],
+                 clause="build_nodes_codes: the code table holds 3 * [row class] + [column class] (0 first, 1 inside, 2 last) at the flat index of an "
+                        "arbitrary node (uses the ASSUMED lemmas RAVEL_INJECTIVE / RAVEL_IN_RANGE)")
 
 
 # =========================================================================== 6. profile grid (1-D, linear arithmetic)
@@ -627,5 +763,6 @@ void h_psym(void)
 
 CONNS = ["queen", "rook", "bishop"]
 GROUPS = {"C07": [g for c in CONNS for g in [nno_group(c), count_group(c), symmetry_group(c), count_impl_group(c)] + [coded_group(c, k) for k in range(9)]]
-          + [indices_group(c, k) for c in CONNS for k in range(9)] + ravel_groups() + profile_groups() + [profile_symmetry_group()]}
+          + [spec_by_code_group(c) for c in CONNS] + [codes_group()]
+          + [indices_group(8), indices_group(4)] + [index_lemma_group(c) for c in CONNS] + ravel_groups() + profile_groups() + [profile_symmetry_group()]}
 PROPS = {"C07": dict(level="other", assumptions=[], undecided=[], unmechanised=[], explanation="")}
